@@ -14,14 +14,17 @@ pub fn big_gcd<const N: usize>(n: &BUint<N>, p: &BUint<N>) -> (r: BUint<N>)
     requires 1 <= N <= 0x100_0000,
     ensures uv(r) == gcd_spec(uv(*n), uv(*p)),
 {
+    proof {
+        // gcd(n, 0) = n by definition; gcd(0, p) = gcd(p, 0) = p (stated up front: the two tests may come in either order)
+        if uv(*p) > 0 {
+            vstd::arithmetic::div_mod::lemma_small_mod(0, uv(*p));
+            assert(gcd_spec(0, uv(*p)) == gcd_spec(uv(*p), 0nat % uv(*p)));
+        }
+    }
     if p.is_zero() {
         return *n;
     }
     if n.is_zero() {
-        proof {
-            vstd::arithmetic::div_mod::lemma_small_mod(0, uv(*p));
-            assert(gcd_spec(0, uv(*p)) == gcd_spec(uv(*p), 0nat % uv(*p)));
-        }
         return *p;
     }
     gcd_internal::<N, false>(n, p).0
